@@ -3061,7 +3061,9 @@ impl Server {
                 let timeout_str = String::from_utf8_lossy(bytes);
                 // Try parsing as float first to handle both integer and decimal values
                 match timeout_str.parse::<f64>() {
-                    Ok(t) if t < 0.0 => return Ok(RespFrame::error("ERR timeout is not a float or out of range")),
+                    // also refuses NaN, infinities and values Duration/Instant cannot hold
+                    // (the limit is u32::MAX seconds, about 136 years)
+                    Ok(t) if !(t >= 0.0 && t <= 4294967295.0) => return Ok(RespFrame::error("ERR timeout is not a float or out of range")),
                     Ok(0.0) => None, // 0 means block forever
                     Ok(t) => Some(std::time::Duration::from_secs_f64(t)),
                     Err(_) => return Ok(RespFrame::error("ERR timeout is not a float or out of range")),
@@ -3120,7 +3122,9 @@ impl Server {
                 let timeout_str = String::from_utf8_lossy(bytes);
                 // Try parsing as float first to handle both integer and decimal values
                 match timeout_str.parse::<f64>() {
-                    Ok(t) if t < 0.0 => return Ok(RespFrame::error("ERR timeout is not a float or out of range")),
+                    // also refuses NaN, infinities and values Duration/Instant cannot hold
+                    // (the limit is u32::MAX seconds, about 136 years)
+                    Ok(t) if !(t >= 0.0 && t <= 4294967295.0) => return Ok(RespFrame::error("ERR timeout is not a float or out of range")),
                     Ok(0.0) => None, // 0 means block forever
                     Ok(t) => Some(std::time::Duration::from_secs_f64(t)),
                     Err(_) => return Ok(RespFrame::error("ERR timeout is not a float or out of range")),
